@@ -10,7 +10,7 @@ from __future__ import annotations
 import random
 import warnings
 
-from sim import compare, popgen
+from sim import compare, popgen, userlib
 
 P_RANGE = 1_000_000
 H_RANGE = 10_000
@@ -221,6 +221,7 @@ def explore(run_seed: int, cfg: dict) -> dict:
     out = {"date": date, "cases": [], "violations": [], "setup": "ok"}
     try:
         params, functions = set_up_policy_environment(date)
+        functions = {**functions, **userlib.user_rules()}
     except Exception as e:  # noqa: BLE001
         out["setup"] = type(e).__name__
         return out
@@ -428,6 +429,7 @@ def replay_case(case: dict) -> dict:
 
     warnings.simplefilter("ignore")
     params, functions = set_up_policy_environment(case["date"])
+    functions = {**functions, **userlib.user_rules()}
     types = popgen.input_types()
     graph, _ = compare.full_graph(popgen.to_frame({"cols": case["A"]}, types=types), params, functions)
     if graph is None:
